@@ -200,8 +200,9 @@ add("C03",
     "generating model covers the observed calls of fault-free operations. Search: byte snapshots of every committed version directory "
     "around every operation; no traced call may target a path inside one.",
     "Hypotheses (env_ok): the staging root is the default one or a -s directory disjoint from the storage root and all object roots; "
-    "objects are not nested (preserved by the guard). strace sees every mutation (rocfl uses no mmap / io_uring writes). Known finding: "
-    "external mv whose named source lies inside the repository.",
+    "objects are not nested (preserved by the guard); a named mv source contains no symbolic link (symlinked and `..`-spelled sources are "
+    "covered by the correspondence and the model-free oracle). strace sees every mutation (rocfl uses no mmap / io_uring writes). No "
+    "known finding is left: an external mv whose source lies inside the repository (128b230) is a must-pass (refused) input.",
     "machine-checked proof in Coq (footprint lemmas over all operations and all trace prefixes) + system-call trace correspondence")
 
 add("C12",
@@ -216,7 +217,9 @@ add("C12",
     "every layout satisfy `allowed`; the guards agree with the real outcome. Search: normalised path of every mutating call inside the two "
     "roots, sentinel tree around the roots unchanged, pre-existing objects still valid (rocfl validate + independent validator), refused "
     "commit changes nothing.",
-    "Hypotheses as C03. Symlinks planted by a third party are out of scope. Known finding: external mv whose named source lies inside the repository.",
+    "Hypotheses as C03. Symlinks planted by a third party are out of scope. No known finding is left: mv sources inside the repository "
+    "(128b230) and objects planted outside the storage root at a layout path (3fb070d) are must-pass inputs; hostile absolute ids and "
+    "roots point into the scratch directory, none are generated under layout 0007.",
     "machine-checked proof in Coq (containment algebra, guard lemmas, footprint of all operations) + system-call trace correspondence")
 
 
